@@ -138,12 +138,13 @@ Proof.
   - destruct (okh H i); reflexivity.
   - destruct (okh H i); [|reflexivity]. destruct (a_cast _ _ _); reflexivity.
   - destruct (okm M n); [|reflexivity]. destruct (nth (Z.to_nat n) _ false); [|reflexivity]. destruct (a_cast _ _ _); reflexivity.
+  - destruct (okh H i && okty ty)%bool; reflexivity.
 Qed.
 
 (* ---------- frame: an operation changes only the holders it names ---------- *)
 Definition targets (o : op) : list Z :=
   match o with
-  | OConsVal i _ _ | OConsCopy i _ | OAssignVal i _ _ | OAssign i _ | OClear i | OAdopt i _ | OSurrender i | OSetVal i _ => [i]
+  | OConsVal i _ _ | OConsCopy i _ | OAssignVal i _ _ | OAssign i _ | OClear i | OAdopt i _ | OSurrender i | OSetVal i _ | OAdoptNull i _ _ => [i]
   | OSwap i j => [i; j]
   | _ => []
   end.
@@ -221,6 +222,7 @@ Proof.
            eapply hsame_trans; [|apply hsame_hs; reflexivity].
            eapply hsame_trans; [|apply hsame_cset]. apply hsame_hs. reflexivity.
         -- eapply hsame_trans; [|apply hsame_cset]. apply hsame_hs. reflexivity.
+  - destruct (okh H i && okty ty)%bool eqn:E; [|apply hsame_refl]. apply andb_true_iff in E. apply hsame_aset. apply HT; [simpl; auto|tauto].
 Qed.
 
 Lemma AWf_sstep a o : AWf a -> AWf (sstep H M tys a o).
